@@ -2,9 +2,9 @@
 # tools/seed_eval.sh <ID> <n> [check-id]: confirm a seeded change (worktree /tmp/wt_<ID>, files seed<n>.patch / seed<n>_demo_test.go / seed<n>.json),
 # then run the property's quick check against it in /repo and record everything under /verif/seeded/<ID>-<n>/.
 ID=$1; N=$2; CK=${3:-$ID}
-WT=/tmp/wt_$ID
+WT=${WT:-/tmp/wt_$ID}
 export GOFLAGS=-mod=mod GOPROXY=off GOSUMDB=off GOTOOLCHAIN=local
-OUT=/verif/seeded/$ID-$N
+OUT=/verif/seeded/$ID-${OUTN:-$N}
 mkdir -p $OUT
 cp $WT/seed$N.patch $OUT/patch.diff
 cp $WT/seed${N}_demo_test.go $OUT/demo_test.go.txt 2>/dev/null
@@ -31,13 +31,13 @@ else
   git -C /repo checkout -- .
   caught=no; echo "$chk" | grep -q "^VIOLATION property=$CK" && caught=yes
 fi
-python3 - "$ID" "$N" "$CK" "$clean_demo" "$build" "$seeded_demo" "$suite" "$caught" "$chk" <<'PY'
+python3 - "$ID" "$N" "$CK" "$clean_demo" "$build" "$seeded_demo" "$suite" "$caught" "$chk" "$WT" "$OUT" <<'PY'
 import json,sys
-ID,N,CK,clean,build,seeded,suite,caught,chk=sys.argv[1:10]
-meta=json.load(open('/tmp/wt_%s/seed%s.json'%(ID,N)))
+ID,N,CK,clean,build,seeded,suite,caught,chk,WT,OUT=sys.argv[1:12]
+meta=json.load(open('%s/seed%s.json'%(WT,N)))
 import re
 caught_by="; ".join(sorted(set(re.findall(r"what: ([^\[]{0,160})", chk))))[:400]
 meta.update({"checked_by_me":{"caught_by":caught_by,"demo_without_change":clean,"build_with_change":build or "ok","demo_with_change":seeded,"existing_suite_with_change":suite or "all packages ok","check_run":"./check %s quick (patch applied to /repo with git apply, undone afterwards)"%CK,"check_caught":caught,"check_output_tail":chk}})
-json.dump(meta,open('/verif/seeded/%s-%s/meta.json'%(ID,N),'w'),indent=1)
+json.dump(meta,open(OUT+'/meta.json','w'),indent=1)
 print(ID,N,"caught="+caught,"| demo clean:",clean[:60],"| demo seeded:",seeded[:80],"| suite:",(suite or "ok")[:60])
 PY
